@@ -414,6 +414,8 @@ func (v *Verifier) structural(cfg PropConfig, sc StructuralCheck) []StructResult
 		return v.cloneIsolation(cfg, sc)
 	case "immutable_fields":
 		return v.immutableFields(cfg, sc)
+	case "event_logged_once":
+		return v.eventLoggedOnce(cfg, sc)
 	case "callers_subset":
 		var a struct {
 			Callee  string   `json:"callee"`
